@@ -51,6 +51,14 @@ def handle : Handler := fun op j =>
           | .ok b => outs := outs.push (Json.mkObj [("bytes", ofNatList b)])
           | .error _ => outs := outs.push (Json.mkObj [("err", "FileNotFoundError")])
       pure (Json.mkObj [("outs", Json.arr outs)])
+  | "fs_write_limit" => some do
+      -- FSStoragePlugin.write of `n` bytes in a process whose file-size limit is `limit`: outcome and bytes left in the file
+      let limit ← getNat j "limit"
+      let n ← getNat j "n"
+      let data := (List.range n).map (fun i => (i * 131 + 7) % 251)
+      pure (match pluginWrite (osLimit limit) data with
+        | .ok f => Json.mkObj [("outcome", "returned"), ("file_size", f.length), ("content_ok", decide (f = data))]
+        | .error (_, f) => Json.mkObj [("outcome", "raised"), ("file_size", f.length), ("content_ok", decide (f = data))])
   | _ => none
 
 end Ts.Drv.StorageOps
